@@ -5852,7 +5852,8 @@ class CodegenCtx:
             transition_body.add("// terminating state")
         target_overriden = False
         needs_early_advance = any(x.may_return_early() for x in transition.actions)
-        immediate_done = transition.target in self.dfa.accepting_states and not ProgramData.do(ProgramFlag.STRICT_DONE_TOKEN_GENERATION) and all(x.error_handling for x in transition.target.transitions)
+        # (strict done tokens only postpone DONE to the next _feed call; there is no next call after _end)
+        immediate_done = transition.target in self.dfa.accepting_states and (from_end or not ProgramData.do(ProgramFlag.STRICT_DONE_TOKEN_GENERATION)) and all(x.error_handling for x in transition.target.transitions)
         if self._transition_advances_early(transition, from_end):
             if ProgramData.do(ProgramFlag.INDIRECT_START_PTR):
                 transition_body.add(f"++(*start);");
